@@ -244,8 +244,9 @@ Loop:
 		// and the messages are finally assembled and sent to
 		// the client when and only when all the messages have been processed
 
-		// Whether all inMsgQueue messages have been processed
-		if !c.inMsgQueue.AllDone() {
+		// replies are delivered in request order: everything up to the first request that is
+		// still waiting for a backend can go out now, later completed requests wait behind it
+		if !c.inMsgQueue.head.Done {
 			continue
 		}
 
@@ -256,12 +257,13 @@ Loop:
 		var curId uint64
 		var curFd = c.fd
 
-		for cur != nil {
+		for cur != nil && cur.Done {
 			curId = cur.Id
 			bs = append(bs, cur.RspBody)
 			logging.Debugfunc(func() string { return fmt.Sprintf("[%dm][%dc] got res: %s", cur.Id, c.Fd(), cur.RspBodyString()) })
 			cur = cur.prev
 		}
+		flushed := len(bs)
 
 		for len(bs) > 0 {
 			var r = len(bs)
@@ -290,8 +292,8 @@ Loop:
 			continue
 		}
 
-		// release Msg
-		for {
+		// release the flushed Msg
+		for ; flushed > 0; flushed-- {
 			msg := c.dequeueInMsg()
 			if msg == nil {
 				break
